@@ -28,6 +28,7 @@ type LoopSpec struct {
 	Decreases  *Clause
 	Modifies   []Expr
 	Lets       []*LetSpec // loop N let NAME = expr : evaluated once at loop entry (before the havoc)
+	IterLets   []*LetSpec // loop N iterlet NAME = expr : evaluated at the head of every iteration (after the havoc)
 }
 
 type AtSpec struct {
@@ -594,6 +595,16 @@ func (fs *FuncSpec) addClause(t, file string, ln int) error {
 				return err
 			}
 			ls.Lets = append(ls.Lets, &LetSpec{Name: strings.TrimSpace(body[:i]), E: e, Text: body})
+		case "iterlet":
+			i := strings.Index(body, "=")
+			if i < 0 {
+				return fmt.Errorf("loop N iterlet NAME = expr")
+			}
+			e, err := parseSpecExpr(strings.TrimSpace(body[i+1:]))
+			if err != nil {
+				return err
+			}
+			ls.IterLets = append(ls.IterLets, &LetSpec{Name: strings.TrimSpace(body[:i]), E: e, Text: body})
 		case "decreases":
 			c, err := mk("decreases", body)
 			if err != nil {
